@@ -67,7 +67,7 @@ func init() {
 			h := Select(e.comp(c.rd, has), c.args[0])
 			keys, ok := constKeys(h)
 			if !ok {
-				panic(outsideSubset("maps.Keys on a map whose key set is not concrete"))
+				return e.conditionalKeys(c, h)
 			}
 			var els []*Term
 			for _, k := range keys {
@@ -160,4 +160,67 @@ func (e *Engine) templateExecute(c *CallCtx) *Term {
 		_, werr = e.writeTo(s, w, out)
 	})
 	return Ite(bad, e.libErr("tmpl:exec"), werr)
+}
+
+// conditionalKeys: sorted keys of a map built by assignments with constant
+// keys under conditions.  With candidates k_0 < ... < k_n and presence
+// conditions p_i, the result has length sum(p_i) and its j-th element is the
+// present key of rank j.
+func (e *Engine) conditionalKeys(c *CallCtx, has *Term) *Term {
+	cands := map[string]bool{}
+	seen := map[int]bool{}
+	okAll := true
+	var walk func(t *Term)
+	walk = func(t *Term) {
+		if seen[t.id] {
+			return
+		}
+		seen[t.id] = true
+		switch t.Op {
+		case "store":
+			if t.Args[1].Op != "str" {
+				okAll = false
+				return
+			}
+			cands[t.Args[1].SVal] = true
+			walk(t.Args[0])
+		case "ite":
+			walk(t.Args[1])
+			walk(t.Args[2])
+		case "constarr":
+			if !t.Args[0].IsFalse() {
+				okAll = false
+			}
+		default:
+			okAll = false
+		}
+	}
+	walk(has)
+	if !okAll || len(cands) > 12 {
+		panic(outsideSubset("maps.Keys on a map whose key set is not concrete"))
+	}
+	var keys []string
+	for k := range cands {
+		keys = append(keys, k)
+	}
+	sort.Strings(keys)
+	n := len(keys)
+	pres := make([]*Term, n)
+	rank := make([]*Term, n)
+	var count *Term = IntT(0)
+	for i, k := range keys {
+		pres[i] = Select(has, StrT(k))
+		rank[i] = count
+		count = Add(count, Ite(pres[i], IntT(1), IntT(0)))
+	}
+	base := e.allocLoc(c.st)
+	e.leafComp("E:string", types.Typ[types.String])
+	for j := 0; j < n; j++ {
+		var el *Term = StrT("")
+		for i := n - 1; i >= 0; i-- {
+			el = Ite(And(pres[i], Eq(rank[i], IntT(int64(j)))), StrT(keys[i]), el)
+		}
+		e.setComp(c.st, "E:string", Store(e.comp(c.st, "E:string"), ElemLoc(base, IntT(int64(j))), el))
+	}
+	return MkSlice(base, IntT(0), count, count)
 }
